@@ -70,7 +70,9 @@ def run(chk):
         out["stdin_runner"] = {"source": src, "inputs": len(fed), "observations": len(r.cases), "mismatches": bad}
         if src == "model":
             n, dis = cu.model_diff(chk, "dec_stream", r.cases, "stdin")
-            out["stdin_runner"]["model_diffed"] = n
+            n2, dis2 = cu.model_diff(chk, "dec_subset", r.cases, "stdin")
+            out["stdin_runner"]["model_diffed"] = n + n2
+            out["stdin_runner"]["model_disagreements"] = dis + dis2
         return out
 
     cu.simple_check(
